@@ -115,6 +115,13 @@ class StorageTools:
         os.replace(tmpPath, path)
 
     @staticmethod
+    def removeProfileData(profile_name, name):
+        logger.debug("removeProfileData(profile_name=%s, name=%s)" % (profile_name, name))
+        path = os.path.join(StorageTools.getStorageForProfile(profile_name), name)
+        if os.path.isfile(path):
+            os.remove(path)
+
+    @staticmethod
     def readProfileData(profile_name, name, default=None):
         logger.debug("readProfileData(profile_name=%s, name=%s)" % (profile_name, name))
         path = StorageTools.getStorageForProfile(profile_name)
